@@ -728,6 +728,67 @@ class Corpus:
             for (n, _k, kind, args, note) in qs_of.get(k, [])[:max_queries]:
                 self.add_q(k2, kind, list(args), note=note)
 
+    def add_silent_derive_twins(self, limit=6, max_queries=150):
+        """SEVERAL DERIVES ON ONE ENUM: a few definitions are repeated with every further strum derive that (a) the model accepts for that item
+        and (b) asks nothing of the field types (EnumCount, EnumIs, EnumTryAs, VariantNames, EnumMessage, EnumProperty, EnumDiscriminants,
+        AsRefStr, IntoStaticStr; VariantArray when no variant carries data) added to the derive list, WITHOUT observers of their own: same model item,
+        same queries, same expected observations.  Helper items two expansions both emit under one name, a generated call that resolves to
+        another derive's method, a derive that starts to rely on another one being present (or absent), expansion-order dependent state: the
+        twin stops compiling or answers differently (round 16)."""
+        import copy
+        from . import gen as G
+        SAFE = ["EnumCount", "EnumIs", "EnumTryAs", "VariantNames", "EnumMessage", "EnumProperty", "EnumDiscriminants", "AsRefStr", "IntoStaticStr", "VariantArray"]
+        base = [k for k, it in self.defs.items()
+                if it.kind == "enum" and it.variants and "twin" not in self.meta[k] and not self.meta[k].get("probe_only") and not self.meta[k].get("sibling")
+                and not self.meta[k].get("shadow_prelude") and not getattr(it, "hostile", None) and not getattr(it, "via_macro", False)
+                and not getattr(it, "conventional_names", False) and not getattr(it, "in_fn_body", False) and not getattr(it, "namesakes", False)
+                and self.meta[k].get("derives") and not it.dmetas and it.ident == "E"
+                and all(v.ident.isascii() and not v.ident.startswith("r#") for v in it.variants)]
+        if not base:
+            return
+        # one per family, in corpus order
+        seen, chosen = set(), []
+        for k in base:
+            fam = str(self.meta[k].get("family")).split("/")[0]
+            if fam not in seen:
+                seen.add(fam)
+                chosen.append(k)
+        chosen = chosen[:limit]
+        try:
+            ans = G.model_query(self.prop, [self.defs[k] for k in chosen], [("outcome", [d]) for d in SAFE] + [("is", ["allnames"])])
+        except Exception:
+            return
+        qs_of = {}
+        for q in self.queries:
+            qs_of.setdefault(q[1], []).append(q)
+        for k, row in zip(chosen, ans):
+            it0 = self.defs[k]
+            names = [x for x in row[-1].strip("[]").split(";") if x]
+            snake_clash = len(set(names)) != len(names)
+            have = set(self.meta[k].get("derives") or [])
+            extra = []
+            for d, o in zip(SAFE, row[:-1]):
+                if d in have or not o.startswith("ok"):
+                    continue
+                if d in ("EnumIs", "EnumTryAs") and snake_clash:
+                    continue        # two variants with one snake name: E0428 in any implementation (outside the derive's domain)
+                if d in ("AsRefStr", "IntoStaticStr") and any(v.has("transparent") for v in it0.variants):
+                    continue        # (a transparent inner field would have to be AsRef<str>)
+                if d == "VariantArray" and (any(v.kind != "unit" for v in it0.variants) or it0.tparams or it0.lifetimes):
+                    continue
+                if d == "EnumDiscriminants" and "EnumDiscriminants" in have:
+                    continue
+                extra.append(d)
+            if not extra:
+                continue
+            it = copy.deepcopy(it0)
+            meta = dict(self.meta[k])
+            fam = "together-with-other-derives/" + str(meta.pop("family", None))
+            meta["silent_derives"] = extra
+            k2 = self.add_def(it, family=fam, **meta)
+            for (n, _k, kind, args, note) in qs_of.get(k, [])[:max_queries]:
+                self.add_q(k2, kind, list(args), note=note)
+
     def add_hostile_twins(self, names, per_name=3, max_queries=120):
         """For each look-alike name (defs.HOSTILE) a few definitions of the corpus are repeated INSIDE a module that declares the
         look-alike next to the enum, with all their queries: same model item, same expected observations.  A generated path that
